@@ -13,6 +13,8 @@ import (
 	"time"
 )
 
+const concNativeAttempts = 6
+
 type CheckDef struct {
 	Property    string
 	Jobs        func(tier string) []*Job
@@ -189,6 +191,7 @@ func cmdCheck(args []string) int {
 		}
 	}
 
+	engineReplayed := map[*Tape]bool{} // concurrent counterexamples reproduced by the executor under their recorded schedule
 	// ---- tapes from paths that used the hash summary: re-run concretely with the real hash ----
 	// (the solver's model fixes the bytes; the uninterpreted hash values it chose need not be the
 	// real ones, so the concrete outcome is recomputed by the executor in interpreter mode)
@@ -196,8 +199,10 @@ func cmdCheck(args []string) int {
 		var cj []*Job
 		var idx []int
 		for i, tr := range all {
-			if tr.tp.Summarised {
+			if tr.tp.Summarised || (tr.tp.Conc && tr.f != nil) {
 				j := mkJob(tr.job.ID+"#concrete", tr.job.Harness, tr.job.Pkg, tr.job.Tags, tr.job.Params)
+				j.Delays = tr.job.Delays
+				j.Filter = def.Filter
 				j.Property = prop
 				j.Unwind = tr.job.Unwind
 				j.Fixed = tr.tp.Inputs
@@ -228,6 +233,9 @@ func cmdCheck(args []string) int {
 				}
 				got.Job = orig.tp.Job
 				got.Summarised = false
+				if orig.tp.Conc {
+					engineReplayed[got] = true
+				}
 				if orig.f == nil {
 					// witness
 					if gotFail != nil {
@@ -245,6 +253,9 @@ func cmdCheck(args []string) int {
 						got.Kind = orig.tp.Kind
 						got.Known = orig.tp.Known
 						all[i] = tapeRef{got, orig.job, gotFail}
+					} else if orig.tp.Conc && !orig.tp.Summarised {
+						inconclusive = append(inconclusive, orig.job.ID+": the executor's replay of a concurrent counterexample under its recorded schedule did not reproduce "+orig.tp.Expect.Fail)
+						all[i].tp = nil
 					} else {
 						spurious++
 						all[i].tp = nil
@@ -284,6 +295,9 @@ func cmdCheck(args []string) int {
 	groups := map[string][]int{}
 	for i, tr := range all {
 		k := tr.tp.Pkg + "|" + tr.tp.Tags
+		if tr.tp.Conc {
+			k += "|race"
+		}
 		groups[k] = append(groups[k], i)
 	}
 	outcomes := make([]Outcome, len(all))
@@ -295,12 +309,13 @@ func cmdCheck(args []string) int {
 	replayOK := true
 	for _, k := range gkeys {
 		idxs := groups[k]
-		parts := strings.SplitN(k, "|", 2)
+		parts := strings.Split(k, "|")
+		race := len(parts) > 2
 		var tps []*Tape
 		for _, i := range idxs {
 			tps = append(tps, all[i].tp)
 		}
-		outs, err := replayTapes(tps, parts[0], parts[1], &replayLog)
+		outs, err := replayTapesOpt(tps, parts[0], parts[1], &replayLog, race)
 		if err != nil {
 			fmt.Println("REPLAY-ERROR:", err)
 			replayOK = false
@@ -309,13 +324,41 @@ func cmdCheck(args []string) int {
 		for n, i := range idxs {
 			outcomes[i] = outs[n]
 		}
+		if race {
+			// the Go scheduler cannot be steered: a schedule-dependent counterexample gets more native runs
+			for attempt := 0; attempt < concNativeAttempts; attempt++ {
+				var again []*Tape
+				var aidx []int
+				for _, i := range idxs {
+					if all[i].f == nil {
+						continue
+					}
+					if ok, _ := judgeTape(all[i].tp, outcomes[i]); !ok {
+						again = append(again, all[i].tp)
+						aidx = append(aidx, i)
+					}
+				}
+				if len(again) == 0 || len(again) > 24 {
+					break
+				}
+				outs2, err := replayTapesOpt(again, parts[0], parts[1], &replayLog, true)
+				if err != nil {
+					break
+				}
+				for n, i := range aidx {
+					if ok, _ := judgeTape(all[i].tp, outs2[n]); ok {
+						outcomes[i] = outs2[n]
+					}
+				}
+			}
+		}
 	}
 	var dualOutcomes []Outcome
 	if def.Dual {
 		// replay counterexamples under the other build configuration too
 		dualOutcomes = make([]Outcome, len(all))
 		for _, k := range gkeys {
-			parts := strings.SplitN(k, "|", 2)
+			parts := strings.Split(k, "|")
 			other := "verif"
 			if parts[1] == "verif" {
 				other = "verif,noasm"
@@ -415,6 +458,12 @@ func cmdCheck(args []string) int {
 			inconclusive = append(inconclusive, tr.tp.Job+": loop bound reached but native run terminates: "+why)
 			continue
 		}
+		schedOnly := false
+		if !ok && tr.tp.Conc && engineReplayed[tr.tp] {
+			// reproduced by the executor on the real code under the recorded schedule, but not by
+			// the native runs: the Go scheduler did not produce that interleaving
+			ok, schedOnly = true, true
+		}
 		if !ok {
 			mismatches++
 			p := saveTape(prop, tr.tp, "mismatch")
@@ -439,7 +488,10 @@ func cmdCheck(args []string) int {
 		violations++
 		p := saveTape(prop, tr.tp, "violation")
 		fmt.Printf("VIOLATION property=%s replay=%s\n", prop, p)
-		fmt.Printf("  job=%s assertion=%q inputs=%s native: fail=%q panic=%q hang=%v crash=%v\n", tr.tp.Job, tr.f.ID, compactInputs(tr.tp), outcomes[i].Fail, outcomes[i].Panic, outcomes[i].Hang, outcomes[i].Crash)
+		fmt.Printf("  job=%s assertion=%q inputs=%s native: fail=%q panic=%q hang=%v crash=%v\n", tr.tp.Job, tr.f.ID, compactInputs(tr.tp), outcomes[i].Fail, oneLine(outcomes[i].Panic), outcomes[i].Hang, outcomes[i].Crash)
+		if schedOnly {
+			fmt.Printf("  schedule-dependent: reproduced by the executor's replay of the recorded schedule on the real code; %d native runs under the Go scheduler did not produce that interleaving\n", concNativeAttempts+1)
+		}
 		if len(samples) < 8 {
 			samples = append(samples, map[string]interface{}{"kind": "counterexample replayed natively", "job": tr.tp.Job, "assertion": tr.f.ID, "inputs": compactInputs(tr.tp)})
 		}
